@@ -102,6 +102,25 @@ def ownerEffects (enc : Bus.Name → BusRoute.Name) (φ : Bus.Conn → ConnId) (
     (s s' : Bus.State) : List Effect :=
   names.flatMap (ownerEffect enc φ s s')
 
+/-- An owner change of C13's model as an effect of C14's. -/
+def toEffect (enc : Bus.Name → BusRoute.Name) (φ : Bus.Conn → ConnId) : Bus.Name × Option Bus.Conn → Effect
+  | (n, some k) => .setOwner (enc n) (φ k)
+  | (n, none) => .unsetOwner (enc n)
+
+/-- `ownerEffects` is the list the driver prints (`Bus.ownerChanges`, command `e`, compared with the changes of
+the heads of `Bus.busNames` on the real bus by stream `router-lookup-bytes`), written as C14's effects. -/
+theorem ownerEffects_eq_changes (enc : Bus.Name → BusRoute.Name) (φ : Bus.Conn → ConnId) (s s' : Bus.State)
+    (op : Bus.Op) :
+    ownerEffects enc φ (Bus.changedNames s op) s s' = (Bus.ownerChanges s s' op).map (toEffect enc φ) := by
+  unfold ownerEffects Bus.ownerChanges
+  rw [List.map_flatMap]
+  congr 1
+  funext n
+  unfold ownerEffect Bus.ownerChange
+  split
+  · rfl
+  · cases Bus.routerLookup s' (.wellKnown n) <;> rfl
+
 section
 variable {enc : Bus.Name → BusRoute.Name} {φ : Bus.Conn → ConnId}
 
@@ -238,6 +257,10 @@ theorem agree_stepL (he : NameEnc enc) (cfg : Cfg ρ) {s s' : Bus.State} (hI : B
     simp only [Bus.stepL] at hs
     cases hs
     exact ha
+  | sendBus c =>
+    simp only [Bus.stepL] at hs
+    cases hs
+    exact ha
   | ask c d =>
     simp only [Bus.stepL, Bus.getNameOwnerOf_post hI c d] at hs
     cases hs
@@ -293,6 +316,7 @@ theorem agree_run (he : NameEnc enc) {hs : List Bus.HStep} : ∀ {s s' : Bus.Sta
               cases h1
               exact Bus.step_lookup_frame hI h3 n hn
           | send c d => simp only [Bus.stepL] at h1; cases h1; rfl
+          | sendBus c => simp only [Bus.stepL] at h1; cases h1; rfl
           | ask c d =>
             simp only [Bus.stepL, Bus.getNameOwnerOf_post hI c d] at h1
             cases h1; rfl
